@@ -42,6 +42,9 @@ def control_devs(s):
         out.append(("ctl_level", [{"kind": "level", "node": "T", "rel": ">", "thr": 3.4, "link": src, "value": "CLOSED"},
                                   {"kind": "level", "node": "T", "rel": "<", "thr": 2.6, "link": src, "value": "OPEN"}]))
         out.append(("ctl_rule", [{"kind": "level", "node": "T", "rel": ">", "thr": 3.3, "link": "p2", "value": "CLOSED", "else_value": "OPEN", "rule": True, "prio": 3}]))
+        # the same rule next to a simple control whose condition holds all the time (and changes nothing)
+        out.append(("ctl_rule_plus_simple", [{"kind": "level", "node": "T", "rel": ">", "thr": 3.3, "link": "p2", "value": "CLOSED", "else_value": "OPEN", "rule": True, "prio": 3},
+                                             {"kind": "level", "node": "T", "rel": "<", "thr": 5.95, "link": src, "value": "OPEN"}]))
     return out
 
 
